@@ -318,6 +318,8 @@ def mutation_of(fn):
         while isinstance(v, (ast.Subscript, ast.Attribute)):
             v = v.value
         if isinstance(v, ast.Call) and isinstance(v.func, ast.Attribute):
+            if isinstance(v.func.value, ast.Name) and v.func.value.id in ('np', 'numpy', 'cv2', 'scipy', 'ndimage') and v.args:
+                return base_name(v.args[0])      # np.asarray(x, ...): a possible alias of x
             return base_name(v.func.value)
         if isinstance(v, ast.Call) and v.args:
             return base_name(v.args[0])
